@@ -56,8 +56,10 @@ type bcaseT struct {
 	// Cancelled (app mode): the context handed to App.Start is already cancelled; the op ends when Start returns
 	Cancelled bool `json:",omitempty"`
 	Custom    bool `json:",omitempty"`
-	Progs     [][]bopT
-	Sched     []stepT
+	// Source: the logger is built with logging.WithSource(true) (ungated mode)
+	Source bool `json:",omitempty"`
+	Progs  [][]bopT
+	Sched  []stepT
 }
 
 type evT struct {
@@ -260,7 +262,11 @@ func runB(k bcaseT, r *hx.Rand) (bcaseT, []evT, bool, map[string]int) {
 	if k.Custom {
 		c.l, err = logging.New(logging.WithCustomLogger(slog.New(&gateHandler{c: c})))
 	} else {
-		c.l, err = logging.New(logging.WithJSONHandler(), logging.WithOutput(traceWriter{c}))
+		lopts := []logging.Option{logging.WithJSONHandler(), logging.WithOutput(traceWriter{c})}
+		if k.Source {
+			lopts = append(lopts, logging.WithSource(true))
+		}
+		c.l, err = logging.New(lopts...)
 	}
 	if err != nil {
 		panic(err)
@@ -536,6 +542,9 @@ func emitBuffer(id string, k bcaseT, r *hx.Rand, st *hx.Stats) string {
 		// between StartBuffering and FlushBuffer with a record buffered
 		window := stats["switch_during_flush"] > 0 || setLevelWhileBuffered(k2, trace)
 		st.Case(in[len(id):], window)
+		if k2.Source {
+			st.Count("buffer_with_source")
+		}
 		if k2.App {
 			st.Count("buffer_through_app")
 		} else if k2.Custom {
@@ -603,6 +612,7 @@ func setLevelWhileBuffered(k bcaseT, trace []evT) bool {
 
 func genBuffer(r *hx.Rand) bcaseT {
 	k := bcaseT{Custom: r.Chance(1, 2)}
+	k.Source = !k.Custom && r.Chance(1, 3)
 	staleCase := r.Chance(1, 10)
 	n := hx.Pick(r, []int{1, 2, 2, 3, 3, 4})
 	for w := 0; w < n; w++ {
@@ -673,6 +683,8 @@ func fixedBuffer() []bcaseT {
 		{Custom: true, Progs: [][]bopT{{S, {K: "L", L: &logT{Seq: 0, Lvl: 3, Fail: true}}, lg(1, 3, false), F}},
 			Sched: []stepT{{G: 0}, {G: 0}, {G: 0}, {G: 0}, {G: 0}, {G: 0}}},
 		{Progs: [][]bopT{{S, {K: "L", L: &logT{Seq: 0, Lvl: 3, Fail: true}}, lg(1, 3, false), F}}, Sched: r0(4)},
+		// call-site reporting on: level methods and derived loggers mixed while buffering
+		{Source: true, Progs: [][]bopT{{S, lg(0, 3, true), lg(1, 3, false), lg(2, 2, true), lg(3, 1, false), F, lg(4, 3, false)}}, Sched: r0(7)},
 		// aborted start-up: StartBuffering; log; Shutdown; FlushBuffer — the buffered records must still come out
 		{Progs: [][]bopT{{S, lg(0, 3, false), lg(1, 1, true), {K: "H"}, F}}, Sched: r0(5)},
 		{Custom: true, Progs: [][]bopT{{S, lg(0, 3, false), {K: "H"}, F}}, Sched: []stepT{{G: 0}, {G: 0}, {G: 0}, {G: 0}, {G: 0}}},
